@@ -35,7 +35,23 @@ func TestC04Rapid(t *testing.T) {
 			t.Fatalf("VERIF-HARNESS materialise: %v", err)
 		}
 		rOld := layout.Resolve(l)
-		cache, _ := cdi.NewCache(cdi.WithSpecDirs(l.Paths()...), cdi.WithAutoRefresh(false))
+		// one case in four: an auto-refresh cache whose watcher could not be created (descriptor shortage at creation);
+		// such a cache rescans on every call, so the injection itself is the call that refreshes - with whatever
+		// per-file errors the directories hold - and it always answers from the current content
+		watcherless := false
+		var cache *cdi.Cache
+		if rapid.IntRange(0, 3).Draw(t, "watcherlessCache") == 0 {
+			if restore, err := exhaustDescriptors(); err == nil {
+				cache, _ = cdi.NewCache(cdi.WithSpecDirs(l.Paths()...), cdi.WithAutoRefresh(true))
+				restore()
+				defer cache.Configure(cdi.WithAutoRefresh(false))
+				watcherless = true
+				rec.Label("cache-without-watcher")
+			}
+		}
+		if cache == nil {
+			cache, _ = cdi.NewCache(cdi.WithSpecDirs(l.Paths()...), cdi.WithAutoRefresh(false))
+		}
 		// stale variant: the directories change after the cache was populated and no Refresh() is
 		// called. Whether a manual cache may look at the directories again is left open; but one
 		// request must be answered from ONE content: the one before or the one after the change.
@@ -59,6 +75,9 @@ func TestC04Rapid(t *testing.T) {
 				}
 			}
 			r = layout.Resolve(l) // the content after the change; rOld is the content before
+		}
+		if watcherless {
+			rOld, stale = r, false
 		}
 		// names of several classes
 		resolvable := r.SortedDevices()
